@@ -20,19 +20,20 @@ let rec starts_with (s : n list) (p : n list) =
   | y :: p', x :: s' -> x = y && starts_with s' p'
   | _ :: _, [] -> false
 
-type record = { child : n; text : n list; status : string; pcs : n list; frames : frame list; enc16 : n list; name : n list }
+type record = { child : n; text : n list; status : string; pcs : n list; frames : frame list; enc16 : n list; name : n list; decoded : n list }
 
 let read_record c =
   let child = next_n c in
   let text = next_bytes c in
   let status = next c in
-  if status <> "ok" then { child; text; status; pcs = []; frames = []; enc16 = []; name = [] }
+  if status <> "ok" then { child; text; status; pcs = []; frames = []; enc16 = []; name = []; decoded = [] }
   else begin
     let pcs = next_list c next_n in
     let frames = next_list c next_frame in
     let enc16 = next_bytes c in
     let name = next_bytes c in
-    { child; text; status; pcs; frames; enc16; name }
+    let decoded = next_bytes c in
+    { child; text; status; pcs; frames; enc16; name; decoded }
   end
 
 (* projection -> name, pcs -> name : what has been observed so far *)
@@ -88,6 +89,27 @@ let check_record (r : record) =
           let tail = List.filteri (fun i _ -> i >= n - List.length marker) r.name in
           if not (n = limit && tail = marker) then
             prop "truncation-marked" (Printf.sprintf "untruncated-length=%d len=%d tail=%S" rawlen n (string_of_bytes tail))
+        end
+      end;
+      (* the name, expanded, lists exactly the frames of the crashing goroutine: one line
+         Function:line,+0xoffset per frame runtime.CallersFrames reports for the (<= 16) pcs;
+         for a truncated name, the complete lines that survived *)
+      if r.pcs <> [] then begin
+        check_eq "decode-of-name" show_b (decode_stack r.name) r.decoded;
+        let plain = render_plain c_crash_prefix r.frames in
+        let raw = encode_raw c_crash_prefix r.frames in
+        if List.length raw <= limit then begin
+          if r.decoded <> plain then
+            prop "name-lists-frames" (Printf.sprintf "expanded name %S but the frames are %S" (short r.decoded) (short plain))
+        end else begin
+          let kept = String.sub (string_of_bytes raw) 0 (limit - List.length marker) in
+          let k = List.length (String.split_on_char '\n' kept) - 1 in
+          let first l = List.filteri (fun i _ -> i < k) l in
+          let dl = first (String.split_on_char '\n' (string_of_bytes r.decoded)) in
+          let pl = first (String.split_on_char '\n' (string_of_bytes plain)) in
+          if dl <> pl then
+            prop "name-lists-frames" (Printf.sprintf "truncated name: first %d expanded lines %S but the frames are %S" k
+                                        (String.concat "\n" dl) (String.concat "\n" pl))
         end
       end;
       (* non-interference: equal projections -> equal names *)
